@@ -15,6 +15,22 @@ def sessionSteps : List String → Option (List String)
     | _, _, _ => none
   | _ => none
 
+/-- what the application sees of `clientRead` (`c04.client`): the body of a message handed on, or a refusal -/
+def showClient : Routed → String
+  | .enc m => "msg body=" ++ showB m.body
+  | .unenc _ body => "msg body=" ++ showB body
+  | _ => "refused"
+
+/-- `c04.client enc`: (key, packet, expectation)* to one client in encrypted mode; like `ReadMsg`, `readMsg` is a
+function of the session's key and mode at the time of the call and of the packet -/
+def clientSteps (enc : Bool) : List String → Option (List String)
+  | [] => some []
+  | key :: pkt :: _expect :: rest =>
+    match parseTok? key, parseTok? pkt, clientSteps enc rest with
+    | some key, some pkt, some r => some (showClient (clientRead enc prims key pkt) :: r)
+    | _, _, _ => none
+  | _ => none
+
 /-- operations of property C04 (see harness/cmd/vh/c04.go). The last token of each operation is the
 generator's expectation for the Go-side oracle; the model does not look at it. -/
 def handle : List String → String
@@ -36,6 +52,11 @@ def handle : List String → String
   -- several packets through ONE transport while the session's key changes
   | "c04.session" :: steps =>
     match sessionSteps steps with
+    | some (r :: rs) => " ; ".intercalate (r :: rs)
+    | _ => "bad-op"
+  -- several packets to ONE real client working under its auth key (MTProto.readMsg)
+  | "c04.client" :: "enc" :: steps =>
+    match clientSteps true steps with
     | some (r :: rs) => " ; ".intercalate (r :: rs)
     | _ => "bad-op"
   -- DeserializeUnencrypted on an arbitrary packet
